@@ -48,11 +48,13 @@ def _print_rings(rings):
     for sym, mk in rings:
         if sym:
             out += sym + mk
+            prev_pct = mk[0] == '%'
         elif prev_pct and mk[0] != '%':
-            out += '%0' + mk            # a one-digit marker directly after %nn cannot be written
+            out += '%0' + mk            # a one-digit marker directly after a % form cannot be written
+            prev_pct = True
         else:
             out += mk
-        prev_pct = mk[0] == '%'
+            prev_pct = mk[0] == '%'
     return out
 
 
